@@ -526,6 +526,14 @@ fn define_inherent_impl(
             params.iter().chain(std::iter::once(&ret)),
             &format!("method {}", method_name_str),
         );
+        // the impl's own parameters reach a method through its receiver; an associated function
+        // without one (`fn new() -> string` in `impl[T] Box[T]`) has to mention them itself
+        report_uninferable_type_params(
+            diagnostics,
+            &impl_generics_tast,
+            params.iter().chain(std::iter::once(&ret)),
+            &format!("the impl, in method {}", method_name_str),
+        );
 
         let impl_method_ty = tast::Ty::TFunc {
             params: params.clone(),
